@@ -223,7 +223,63 @@ class StmtMixin:
         return out
 
     def st_Try(self, s, st):
-        self.unsupported(s, "try statement")
+        """try: <one statement whose (single, outermost) call is to a contracted callee with `raises`>  except E: handler
+        The callee's contract says exactly when it raises E; the statement is split on that condition."""
+        if s.finalbody or s.orelse or len(s.body) != 1:
+            self.unsupported(s, "try statement form")
+        stmt = s.body[0]
+        call = stmt.value if isinstance(stmt, (ast.Assign, ast.Expr)) else None
+        if not isinstance(call, ast.Call):
+            self.unsupported(s, "try body is not a single call")
+        f = call.func
+        name = f.attr if isinstance(f, ast.Attribute) else getattr(f, "id", None)
+        c = None
+        recv = None
+        if isinstance(f, ast.Attribute):
+            rv = self.ev(f.value, st)
+            if isinstance(rv, VRec):
+                c = self.resolve_user(name, rv.ty.rname)
+                recv = rv
+        else:
+            c = self.resolve_user(name)
+        if c is None or not c.raises:
+            self.unsupported(s, "try around a callee without a `raises` contract")
+        fdef, _, _ = self.callee_def(c)
+        args, kw = self.args_of(call, st)
+        if recv is not None:
+            args = [recv] + args
+        params, bound = self.bind_params(c, fdef, args, kw, call, st)
+        cs = State(bound)
+        cs.entry = cs
+        out = []
+        handled = set()
+        cur = st
+        for h in s.handlers:
+            hn = h.type.id if isinstance(h.type, ast.Name) else None
+            if hn not in c.raises:
+                continue
+            handled.add(hn)
+            cond = self.spec_bool(c.raises[hn], cs)
+            a, cur = self.fork(cur, cond)
+            if a is not None:
+                out += self.exec_block(h.body, a)
+            if cur is None:
+                return out
+        for en, cnd in c.raises.items():
+            if en not in handled:
+                cond = self.spec_bool(cnd, cs)
+                a, cur = self.fork(cur, cond)
+                if a is not None:
+                    out.append((a, ("raise", en, s)))
+                if cur is None:
+                    return out
+        # no exception: the statement executes normally (the callee contract's requires may mention not-raising)
+        self.no_raise = getattr(self, "no_raise", 0) + 1
+        try:
+            out += self.exec_stmt(stmt, cur)
+        finally:
+            self.no_raise -= 1
+        return out
 
     def st_With(self, s, st):
         self.unsupported(s, "with statement")
@@ -503,6 +559,8 @@ class StmtMixin:
                 elem_fn = lambda kk: VInt(lo - kk)
         elif isinstance(it, ast.Call) and isinstance(it.func, ast.Name) and it.func.id == "enumerate":
             seq = self.ev(it.args[0], st)
+            if isinstance(seq, VSet) and not getattr(seq, "empty_literal", False):
+                seq = self.list_of_set(seq, st)
             if not isinstance(seq, VList):
                 self.unsupported(s, "enumerate of %s" % seq.ty)
             count = seq.n
